@@ -375,8 +375,13 @@ def snetTimestamp (v : JVal) : Except Err Int :=
   match v with
   | .int i => .ok i
   | .bool b => .ok (if b then 1 else 0)
-  | .real _ => .error (oomErr "snet-timestamp-float")
-  | _ => .error (nonlibErr "TypeError" "snet.timestamp-type")
+  | .real _ =>
+    -- a float (NaN included): refused as "not an integer" when the regenerated type guard is there; without it the
+    -- comparisons of a float are outside the model
+    if safetynetTimestampRequiresInt then .error (regErr "snet.timestamp-not-int") else .error (oomErr "snet-timestamp-float")
+  | _ =>
+    if safetynetTimestampRequiresInt then .error (regErr "snet.timestamp-not-int")
+    else .error (nonlibErr "TypeError" "snet.timestamp-type")
 
 def verifySafetyNet (st : AttStmt) (authDataRaw : Cbor) (cdj : Bytes) (roots : List Root) : M Unit := do
   reject (!cborTruthy st.ver) (regErr "snet.ver-missing")
